@@ -128,3 +128,14 @@ def f4_inv_mod_zero_modulus(case, impl, model, spec):
     if any(w != 0 for w in case.args[1]):
         return False
     return impl == 'panic' and model == 'none' and spec == 'none'
+
+
+def f34_params_ct_eq_lz(case, impl, model, spec):
+    """F34: ConstantTimeEq for MontyParams does not compare mod_leading_zeros. Matches exactly: the route that compares two
+    parameter sets of one modulus with DIFFERENT mod_leading_zeros (arguments 1 and 2), the implementation (and its
+    faithful model) answer 1 where equality of all fields (the spec) answers 0."""
+    if case.rop != 'glue2.params_ct_eq_lz' or len(case.args) != 3:
+        return False
+    if case.args[1] == case.args[2]:
+        return False
+    return impl == 'ok 1' and model == 'ok 1' and spec == 'ok 0'
